@@ -431,6 +431,21 @@ def oracle(case, base, row):
             if not report_mentions(rf["report"], meta):
                 fails.append((f"not-reported:{cls}", f"field {n}: dataset_compliance() does not mention the broken "
                               f"{v}:{attr} = {meta['value']!r}; report = {rf['report'][:4]}"))
+    if attr in ("compress", "sample_dimension", "instance_dimension") and effective_kind(meta) == "missing":
+        # the problem of a list / count / index variable belongs in the report of the field built from that
+        # variable, or of a field whose data it compresses: some returned field must have it
+        if not any(report_mentions(f["report"], meta) for f in rd["fields"]):
+            fails.append((f"not-reported:{cls}", f"no returned field's dataset_compliance() mentions the broken "
+                          f"{v}:{attr} = {meta['value']!r}; fields {[f['ncvar'] for f in rd['fields']]}"))
+    if meta["kind"] == "geometry-user":
+        tf = next((f for f in rd["fields"] if f["ncvar"] == v), None)
+        if tf is None:
+            fails.append((f"field-lost:{cls}", f"the variable {v} ({meta['label']}) that names geometry container "
+                          f"{meta['value']} is not returned as a field"))
+        elif not any(key == meta["value"] or (att and any(val == meta["value"] for _, val in att))
+                     for fv, key, reason, code, att in tf["report"]):
+            fails.append((f"not-reported:{cls}", f"field {v}: dataset_compliance() does not mention the geometry "
+                          f"container {meta['value']} whose cells it does not span; report = {tf['report'][:3]}"))
     return fails
 
 
@@ -442,10 +457,9 @@ def field_concerned(bf, meta, base=None):
     if meta["attr"] in GEOM_ATTRS and base is not None and not meta.get("ugrid"):
         # the carrying variable is a geometry container: the fields of the data variables naming it
         return any(x["name"] == bf["ncvar"] and x["attrs"].get("geometry") == v for x in base["raw"]["vars"])
-    if meta["attr"] in ("compress", "sample_dimension", "instance_dimension") and base is not None:
-        # a list / count / index variable: the fields of the data variables on the compressed dimension
-        dims = [meta["old"]] if meta["attr"] == "sample_dimension" else list(meta.get("carrier_dims") or [])
-        return any(x["name"] == bf["ncvar"] and set(x["dims"]) & set(dims) for x in base["raw"]["vars"])
+    if meta["attr"] in ("compress", "sample_dimension", "instance_dimension"):
+        # (judged over all returned fields, see oracle)
+        return False
     for c in bf["constructs"]:
         if c["ncvar"] == v or (c["bounds"] and c["bounds"][0] == v):
             return True
@@ -553,7 +567,8 @@ WHAT = {"Bounds variable": "WBounds", "Auxiliary/scalar coordinate variable": "W
         "Bounds formula terms variable": "WBFt", "Bounds formula_terms attribute": "WBFtAttr",
         "Grid mapping variable": "WGm", "grid_mapping attribute": "WGmAttr",
         "Grid mapping coordinate variable": "WGmCoord", "Cell method interval": "WCmInterval",
-        "cell_methods attribute": "WCmAttr"}
+        "cell_methods attribute": "WCmAttr", "Compressed dimension": "WCompress",
+        "compress attribute": "WCompressAttr"}
 REASON = {"is not in file": "RMissing", "spans incorrect dimensions": "RDims", "is incorrectly formatted": "RFormat",
           "is not in file nor referenced by the external_variables global attribute": "RMissingExt",
           "has incompatible terms": "RIncompat", "that spans the vertical dimension has no bounds": "RNoBounds",
@@ -778,6 +793,31 @@ def weak_oracle(case, base, row):
     return fails
 
 
+def geometry_user_cases(base):
+    """A further variable that names an (already parsed) geometry container of the file without spanning
+    its cell dimension: on a foreign dimension of the same size as the cell dimension, of another size,
+    on another dimension of the file, and with no dimension at all."""
+    raw = base["raw"]
+    users = [v for v in raw["vars"] if v["attrs"].get("geometry")]
+    if not users:
+        return []
+    cont = users[0]["attrs"]["geometry"]
+    cell = users[0]["dims"][0]
+    size = next(d[1] for d in raw["dims"] if d[0] == cell)
+    other = [d for d in users[0]["dims"] if d != cell][:1]
+    out = []
+    for label, dims, sizes in (("same-size", ["zz_same"], {"zz_same": size}), ("other-size", ["zz_fdim"], {}),
+                               ("other-dimension", other, {}), ("scalar", [], {})):
+        if label == "other-dimension" and not other:
+            continue
+        out.append({"base": base["id"], "foreign": False, "edits": [],
+                    "extra_vars": [{"name": "zz_third", "dims": dims, "dim_sizes": sizes, "dtype": "f8",
+                                    "attrs": {"long_name": "off the cell dimension", "geometry": cont}}],
+                    "meta": {"var": "zz_third", "attr": "geometry_user", "kind": "geometry-user", "tok": 0,
+                             "old": cont, "new": None, "role": "name", "value": cont, "orig": cont, "label": label}})
+    return out
+
+
 def external_cases(base):
     """Reads with external files (cfdm.read(parent, external=[...])) of a base whose data variable names
     an external cell measure: files that supply the variable (H), supply nothing (N), supply it on
@@ -884,6 +924,7 @@ def run(chk, model_ok):
     externals = []
     for b in use:
         externals += external_cases(bases[b])
+        singles += geometry_user_cases(bases[b])
     cases = corpus + singles + randoms + doubles + externals
     rows, crashed = run_cases(chk, cases, bases, nworkers=16)
     for w, rc, err in crashed:
